@@ -145,8 +145,23 @@ structure Rec where
   funcName : Str
 deriving DecidableEq, Repr
 
-/-- every text field is valid Unicode text (scalar values only) -/
+/-- no high surrogate is directly followed by a low surrogate -/
+def NoPair : Str → Prop
+  | [] => True
+  | [_] => True
+  | a :: b :: t => ¬ ((0xD800 ≤ a ∧ a ≤ 0xDBFF) ∧ (0xDC00 ≤ b ∧ b ≤ 0xDFFF)) ∧ NoPair (b :: t)
+
+/-- text that survives the JSON round trip: code points below 0x110000 with no adjacent high + low surrogate.
+    Every valid Unicode text (scalar values only) is of this kind; so is a Python `str` with lone surrogates. -/
+def okText (s : Str) : Prop := (∀ c ∈ s, c < 0x110000) ∧ NoPair s
+
+/-- every text field is `okText` -/
 def Rec.WF (r : Rec) : Prop :=
+  okText r.module ∧ okText r.host ∧ okText r.data ∧ okText r.datetime ∧ (∀ t ∈ r.tags, ∀ s ∈ t, okText s) ∧
+  okText r.line ∧ (∀ s ∈ r.stacktrace, okText s) ∧ okText r.levelName ∧ okText r.funcName
+
+/-- every text field is valid Unicode text (scalar values only) -/
+def Rec.Scalar (r : Rec) : Prop :=
   (∀ c ∈ r.module, isScalar c) ∧ (∀ c ∈ r.host, isScalar c) ∧ (∀ c ∈ r.data, isScalar c) ∧
   (∀ c ∈ r.datetime, isScalar c) ∧ (∀ t ∈ r.tags, ∀ s ∈ t, ∀ c ∈ s, isScalar c) ∧ (∀ c ∈ r.line, isScalar c) ∧
   (∀ s ∈ r.stacktrace, ∀ c ∈ s, isScalar c) ∧ (∀ c ∈ r.levelName, isScalar c) ∧ (∀ c ∈ r.funcName, isScalar c)
